@@ -313,11 +313,15 @@ func (r *Run) Violation(caseIdx int, class string, witness interface{}) {
 	r.printedViol++
 	r.violationSeq++
 	_ = os.MkdirAll(r.replayDir, 0o755)
-	name := fmt.Sprintf("%s-%d-%s-s%d-%d.json", r.Prop, r.seed, r.tier, r.shard, r.violationSeq)
+	pkg := os.Getenv("VERIF_PKG")
+	if pkg != "" {
+		pkg = "-" + pkg
+	}
+	name := fmt.Sprintf("%s%s-%d-%s-s%d-%d.json", r.Prop, pkg, r.seed, r.tier, r.shard, r.violationSeq)
 	path := filepath.Join(r.replayDir, name)
 	doc := map[string]interface{}{
 		"property": r.Prop, "seed": r.seed, "tier": r.tier, "case": caseIdx,
-		"class": class, "witness": witness,
+		"class": class, "witness": witness, "pkg": os.Getenv("VERIF_PKG"),
 	}
 	b, err := json.MarshalIndent(doc, "", " ")
 	if err != nil {
